@@ -86,6 +86,11 @@ pub struct BhCase {
     /// every service is used through one single handle (nothing else refers to the bulkhead)
     #[serde(default)]
     pub single_handle: bool,
+    /// at this instant a handle of service 1 (clone index) is polled for readiness and the
+    /// wrapped service's check fails once (a transient error of that one handle, which comes
+    /// out of the bulkhead's poll_ready); that handle is not used for a call in that instant
+    #[serde(default)]
+    pub ready_err_at: Option<(u64, u8)>,
 }
 
 #[derive(Clone, Debug, Serialize, Deserialize)]
@@ -119,6 +124,7 @@ fn stress_strategy(tier: Tier) -> BoxedStrategy<BhCase> {
             listeners: false,
             starve_mask: 0,
             single_handle: false,
+            ready_err_at: None,
             stress: Some(Stress {
                 max,
                 threads,
@@ -285,9 +291,10 @@ fn case_strategy(tier: Tier) -> BoxedStrategy<BhCase> {
             prop::bool::weighted(0.3),
             prop_oneof![4 => Just(0u64), 1 => (0u64..64).prop_map(|k| 1 << k), 1 => any::<u64>()],
             prop::bool::weighted(0.15),
+            prop_oneof![4 => Just(None), 1 => (gen::instant(80), 0u8..4).prop_map(Some)],
         ),
     )
-        .prop_map(|(max, wait, clones, callers, order, hold, (setter_order, decoy, nest_mask, listeners, starve_mask, single_handle))| BhCase {
+        .prop_map(|(max, wait, clones, callers, order, hold, (setter_order, decoy, nest_mask, listeners, starve_mask, single_handle, ready_err_at))| BhCase {
             max,
             wait,
             clones,
@@ -301,6 +308,7 @@ fn case_strategy(tier: Tier) -> BoxedStrategy<BhCase> {
             listeners,
             starve_mask,
             single_handle,
+            ready_err_at,
         })
         .boxed()
 }
@@ -368,12 +376,17 @@ type Outer = tower::util::BoxCloneService<Req, crate::svc::Resp, BulkheadService
 /// Inner service that, for the requests selected by `mask`, calls back into the very bulkhead it
 /// sits behind (a handler that calls a sibling endpoint of its own service) before it does its
 /// own work. The nested request passes through the bulkhead like any other and counts.
+const READY_ERR_CODE: u32 = 4_040;
+
 #[derive(Clone)]
 struct Nest {
     inner: Scripted,
     outer: std::sync::Arc<std::sync::Mutex<Option<Outer>>>,
     log: Log,
     mask: u64,
+    /// armed by the harness: the next readiness check of any handle fails once (a transient
+    /// failure of one connection); nothing else about the service changes
+    fail_next_ready: std::sync::Arc<std::sync::atomic::AtomicBool>,
 }
 
 impl Service<Req> for Nest {
@@ -382,6 +395,12 @@ impl Service<Req> for Nest {
     type Future = futures::future::BoxFuture<'static, Result<crate::svc::Resp, crate::svc::SErr>>;
 
     fn poll_ready(&mut self, cx: &mut std::task::Context<'_>) -> std::task::Poll<Result<(), Self::Error>> {
+        if self.fail_next_ready.swap(false, std::sync::atomic::Ordering::SeqCst) {
+            return std::task::Poll::Ready(Err(crate::svc::SErr {
+                code: READY_ERR_CODE,
+                serial: 0,
+            }));
+        }
         self.inner.poll_ready(cx)
     }
 
@@ -509,17 +528,20 @@ async fn interp(case: &BhCase) -> Verdict {
     )
     .build();
     let outer1: std::sync::Arc<std::sync::Mutex<Option<Outer>>> = Default::default();
+    let fail_next_ready: std::sync::Arc<std::sync::atomic::AtomicBool> = Default::default();
     let base1 = layer.layer(Nest {
         inner: inner1.clone(),
         outer: outer1.clone(),
         log: log.clone(),
         mask: case.nest_mask,
+        fail_next_ready: fail_next_ready.clone(),
     });
     let base2 = layer.layer(Nest {
         inner: inner2.clone(),
         outer: Default::default(),
         log: log.clone(),
         mask: 0,
+        fail_next_ready: Default::default(),
     });
     if case.nest_mask != 0 {
         *outer1.lock().unwrap() = Some(Outer::new(base1.clone()));
@@ -567,6 +589,7 @@ async fn interp(case: &BhCase) -> Verdict {
     let fp: Vec<u64> = case.callers.iter().map(|c| c.at + c.poll_delay).collect();
     let mut saw_delayed_poll = false;
     let mut saw_ready_early = false;
+    let mut saw_ready_err = false;
     let mut saw_full_with_queue = false;
     let mut saw_cancel_queued = false;
     let mut saw_cancel_running = false;
@@ -596,6 +619,23 @@ async fn interp(case: &BhCase) -> Verdict {
             w[0] += nested_waiting(l);
             ([in_flight_of(l, false), in_flight_of(l, true)], w)
         });
+        // a transient readiness failure of the wrapped service, seen through one handle
+        if let Some((when, k)) = case.ready_err_at {
+            if when == t {
+                fail_next_ready.store(true, std::sync::atomic::Ordering::SeqCst);
+                let s = &mut clones1[(k % nclones) as usize];
+                let r = futures::future::poll_fn(|cx| s.poll_ready(cx)).await;
+                fail_next_ready.store(false, std::sync::atomic::Ordering::SeqCst);
+                saw_ready_err = true;
+                let passed_through = matches!(&r, Err(BulkheadServiceError::Inner(e)) if e.code == READY_ERR_CODE);
+                if !passed_through {
+                    v.c07.push(format!(
+                        "t={t}: the wrapped service's readiness check failed, the bulkhead's poll_ready returned {:?} instead of that error",
+                        r.map_err(|e| e.to_string())
+                    ));
+                }
+            }
+        }
         // handles polled for readiness ahead of their call
         for c in case.callers.iter() {
             if c.ready_early > 0 && c.at > 0 && c.at.saturating_sub(c.ready_early) == t && c.at != t {
@@ -1001,6 +1041,9 @@ async fn interp(case: &BhCase) -> Verdict {
     }
     if single {
         v.classes.push("one_handle_per_service_no_clone_alive");
+    }
+    if saw_ready_err {
+        v.classes.push("transient_readiness_error_of_the_wrapped_service");
     }
     if case.starve_mask & ((1u64 << case.callers.len().min(63)) - 1) != 0 {
         v.classes.push("first_poll_with_exhausted_cooperative_budget");
